@@ -245,6 +245,18 @@ class ModelBackend(Backend):
     def Hempty(self, fmt):
         return self.world.hm.digest(self._alg(fmt), [])
 
+    def Hbytes(self, fmt, data):
+        if len(data) == 0:
+            return self.Hempty(fmt)
+        return self.world.hm.digest(self._alg(fmt), [2, self.world.hm.bytes_id(data)])
+
+    def digest_after(self, line, sep):
+        from . import tokens
+        toks = [t for t in tokens.tokens_in(line.split(sep, 1)[1]) if isinstance(t, tokens.Dig)]
+        if len(toks) != 1:
+            raise Violation("digest-not-printed", line)
+        return toks[0]
+
     def hash_digs(self, fmt, digs):
         flat = []
         for d in digs:
@@ -568,6 +580,12 @@ class RealBackend(Backend):
 
     def Hempty(self, fmt):
         return real_digest(fmt, b"")
+
+    def Hbytes(self, fmt, data):
+        return real_digest(fmt, data)
+
+    def digest_after(self, line, sep):
+        return line.split(sep, 1)[1].strip()
 
     def hash_digs(self, fmt, digs):
         return real_digest(fmt, b"".join(real_decode(fmt, d) for d in digs))
